@@ -82,39 +82,3 @@ Qed.
 
 End Forget.
 
-(* ---------------------------------------------------------------- witnesses over the reals *)
-Open Scope R_scope.
-Notation FR := (FlR Sp0).
-
-(* v = (3, 5), constants; receiver = v[1] *)
-Definition st_red : St (A := R) := upd (upd stR0 0 (mkReg K64 3 0 0 [] [])) 1 (mkReg K64 5 0 0 [] []).
-
-(* r.Vmean(v), r = v[1]: (0 + 3 + 3) / 2 = 3, fresh receiver (3 + 5) / 2 = 4 *)
-Lemma vmean_receiver_in_vector_refuted :
-  exists t t', exec FR idR (IVmean 1 [Rg 0; Rg 1]) st_red = Ok t /\
-               exec FR idR (IVmean 2 [Rg 0; Rg 1]) st_red = Ok t' /\
-               rval (t 1%nat) = 3 /\ rval (t' 2%nat) = 4.
-Proof.
-  eexists. eexists. split; [reflexivity|]. split; [reflexivity|].
-  cbn. unfold idR. split; lra.
-Qed.
-
-(* r.Mtrace(m), r = m[0][0], diagonal (3, 5): 0 + 0 + 5 = 5, fresh receiver 8 *)
-Lemma mtrace_receiver_on_diagonal_refuted :
-  exists t t', exec FR idR (IMtrace 0 [Rg 0; Rg 1]) st_red = Ok t /\
-               exec FR idR (IMtrace 2 [Rg 0; Rg 1]) st_red = Ok t' /\
-               rval (t 0%nat) = 5 /\ rval (t' 2%nat) = 8.
-Proof.
-  eexists. eexists. split; [reflexivity|]. split; [reflexivity|].
-  cbn. unfold idR. split; lra.
-Qed.
-
-(* r.VdotV(v, v), r = v[1]: 9 + 9 * 9 = 90, fresh receiver 9 + 25 = 34 *)
-Lemma vdotv_receiver_in_vector_refuted :
-  exists t t', exec FR idR (IVdotV 1 [Rg 0; Rg 1] [Rg 0; Rg 1] 9) st_red = Ok t /\
-               exec FR idR (IVdotV 2 [Rg 0; Rg 1] [Rg 0; Rg 1] 9) st_red = Ok t' /\
-               rval (t 1%nat) = 90 /\ rval (t' 2%nat) = 34.
-Proof.
-  eexists. eexists. split; [reflexivity|]. split; [reflexivity|].
-  cbn. unfold idR. split; lra.
-Qed.
